@@ -62,6 +62,23 @@ def tbl (ws : List String) : String :=
   | ["settkl", b, k] => match (hdrOf (nat! b)).setTkl (UInt8.ofNat (nat! k)) with
       | .ok h => toString h.vtt.toNat
       | _ => "panic"
+  | ["errctor", name] =>
+      let c : Option (Option ResponseType) := match name with
+        | "notHandled" => some HandlingErrorCode.notHandled
+        | "notFound" => some HandlingErrorCode.notFound
+        | "badRequest" => some HandlingErrorCode.badRequest
+        | "internal" => some HandlingErrorCode.internal
+        | "methodNotSupported" => some HandlingErrorCode.methodNotSupported
+        | _ => none
+      match c with
+      | some (some r) => toString (MessageClass.toU8 (.Response r))
+      | some none => "none"
+      | none => "bad-op"
+  | ["hdrser", cap, b0, code, mid] =>
+      if nat! cap < 4 then "err"
+      else
+        let m := nat! mid
+        "ok " ++ hexOfBytes [UInt8.ofNat (nat! b0), UInt8.ofNat (nat! code), UInt8.ofNat (m / 256), UInt8.ofNat (m % 256)]
   | ["const", "maxsize"] => toString Consts.maxSize
   | ["const", "maxsizeudp"] => toString Consts.maxSizeUdp
   | ["const", "header"] =>
